@@ -443,3 +443,20 @@ ADDENDA_R9 = {
     "C19": ("R19.r", "no output is moved into place by a call whose result is ignored", "discarded-result rule on delivery calls, with a built-in positive example"),
     "C20": ("R20.13", "on a merge, the database's lists receive the surviving index, never the discarded one", "value provenance behind a gate"),
 }
+
+
+# Round 10 (DESIGN.md section 8).
+ADDENDA_R10 = {
+    "C02": ("R02.13", "collapsing the per-argument-count overload sets copies the superset into the kept entry before the others are erased", "must-pass-through"),
+    "C04": ("tightened R04.3", "a wrapper-peeling predicate recurses into its own type-taking overload with the wrapped type itself", "callee-signature and argument-shape check"),
+    "C06": ("R06.17", "identity functions compare members whole (no mask, shift, division)", "operand-shape lint with a built-in positive example"),
+    "C07": ("R07.17", "the keyword table maps the alternative operator tokens as the standard does and every keyword to its own token", "frozen table against the initialiser of the lexer's map"),
+    "C09": ("R09.13", "a backward trim loop tests the character it is about to drop", "cursor-style inference from the later substr length"),
+    "C10": ("R10.12", "= 0 / = default / = delete are recorded as written, independent of the storage class so far", "condition-read analysis"),
+    "C11": ("R11.12", "no list of the database receives an index that a merge discarded (R20.13 claimed from the closure side)", "value provenance behind a gate"),
+    "C13": ("R13.8", "the module search includes a module's first index in that module", "relation extracted from the gating edge of each recursive call"),
+    "C14": ("R14.10", "constructor-less serialised records are filled field by field on every path before they are stored", "per-field must-pass-through"),
+    "C15": ("R15.31", "nothing null is stored into the macro table", "nullable-value rule on the table's writers"),
+    "C17": ("R17.10", "a file named on the command line is the user's own whatever the lookup said", "condition analysis of the override"),
+    "C20": ("character-read clause of R20.12", "no character of a module-definition string is read without a null test of that pointer", "same-expression null test"),
+}
